@@ -273,8 +273,9 @@ def respSiteHolds (ins : List RespAct) (enc : List SVar) : Bool :=
 
 /-! ### Legacy (policies) mode sites: `DispatchOnRequest` / `DispatchOnResponse`
 
-Observed: the request's header map, the configured remedies (in order) and the variables that
-come back.  `scriptReq` / `scriptResp` (environment section of the model file) say what each
+Observed: the request's header map (and, from the earlier transactions of the case, what the
+authentication plugins have cached), the configured remedies (in order) and the variables that
+come back.  A transaction's variables may carry only what ITS OWN remedies answered.  `scriptReq` / `scriptResp` (environment section of the model file) say what each
 configured remedy answers; nothing of the fold is used. -/
 
 /-- Header edits of the response-side modifications, in order. -/
@@ -285,8 +286,8 @@ def respEdits (as : List RespAct) : List Hdrs :=
     answered the request itself, the first such answer wins UNCHANGED in status and body; its
     header map may only gain the header edits of the response-side modifications that run on
     that answer (`obtainModifiedEarlyResponse`), later edit winning. -/
-def legacyReqHolds (H0 : Hdrs) (rs : List Remedy) (enc : List SVar) : Bool :=
-  let ins := scriptReq { hdrs := H0 } rs
+def legacyReqHolds (env : ReqEnv) (rs : List Remedy) (enc : List SVar) : Bool :=
+  let ins := scriptReq env rs
   match decodeReq enc with
   | none => false
   | some d =>
@@ -308,7 +309,7 @@ inductive Obs where
   | resp (ins : List RespAct) (prev out : RespAct) (enc : List SVar)
   | reqSite (ins : List ReqAct) (enc : List SVar)
   | respSite (ins : List RespAct) (enc : List SVar)
-  | legacyReq (H0 : Hdrs) (rs : List Remedy) (enc : List SVar)
+  | legacyReq (env : ReqEnv) (rs : List Remedy) (enc : List SVar)
   | legacyResp (status : Int) (rs : List Remedy) (enc : List SVar)
 
 def Obs.holds : Obs → Bool
@@ -316,7 +317,7 @@ def Obs.holds : Obs → Bool
   | .resp ins prev out enc => respHolds ins prev out enc
   | .reqSite ins enc => reqSiteHolds ins enc
   | .respSite ins enc => respSiteHolds ins enc
-  | .legacyReq H0 rs enc => legacyReqHolds H0 rs enc
+  | .legacyReq env rs enc => legacyReqHolds env rs enc
   | .legacyResp st rs enc => legacyRespHolds st rs enc
 
 def holds (h : List Obs) : Bool := h.all Obs.holds
